@@ -36,7 +36,10 @@ RULE = (
     "requests and final file; independently: a normal return whose last verification had a "
     "checksum available leaves a file whose MD5 equals that checksum. Non-trivial: a "
     "corrupt-then-good or good-after-error pattern, a checksum behaviour that changes within the "
-    "call, or a pre-existing file.")
+    "call, or a pre-existing file."
+    ' Later additions: HEAD answered by the mock, HTTP 503, target path as Path/str/through a sym'
+    "linked directory/with '..', the download_test_file route (also two names in one cache direct"
+    'ory), bodies beyond 1 MiB.')
 ASSUMPTIONS = ['responses 0.x as HTTP mock for requests', 'hashlib.md5']
 
 
